@@ -41,6 +41,11 @@ Precondition of exactness (C13: "form text larger than the in-memory threshold i
 text values fit in max_memfile_size. Where they do not fit the statement allows refusal: then only "200 => exact" is
 demanded. Chunked framing: a chunk-size line fits in max_memfile_size (global assumption of C05), guaranteed by mem >= 8.
 Out of the generated space on purpose (DESIGN.md section 5): quoted boundary parameter, empty file name.
+Part (6) ("all legal boundary strings"): boundary strings over the RFC 2046 bchars that contain '=' and the very text
+'boundary=' (form_boundary=42, boundary=boundary=x, ...), and the boundary parameter followed / preceded by another
+parameter of the Content-Type header (`ctype` of the case: a template with {b} for the boundary; absent = the plain
+'multipart/form-data; boundary={b}'). The contract is unchanged (R0..R4): the delimiter is the whole value of the
+boundary parameter, neither a tail of it nor anything behind the next ';'.
 """
 import io
 import itertools
@@ -63,7 +68,12 @@ BOUND = ('field lists: (1) every single field over 16 names (ASCII, space, ";", 
          'X-Note or x-other header, two of them under one repeated name, one text field), as one form and - every ordered pair of '
          'sequences of length <=2 (quick) / all splits of every sequence (thorough) - as TWO requests served one after the other '
          'in one process (same application | a second Ombott object); content_type and the exposed headers of every upload are '
-         'compared with what that part sent (untyped upload => no content type / RFC default), thresholds/framings rotated.')
+         'compared with what that part sent (untyped upload => no content type / RFC default), thresholds/framings rotated. '
+         '(6) boundary strings that contain "=" or the text "boundary=" {boundary, my-boundary=, ==frontier==, form_boundary=42, '
+         'boundary=boundary=x, xboundary=boundary=-, a=b} and the 5 boundaries above x Content-Type header {boundary parameter '
+         'last, followed by "; charset=utf-8", preceded by "charset=utf-8; "} x 22 field lists (empty, 9 single fields, 8 '
+         'sequences of 2..5 parts with duplicates / UTF-8 / separators in names / adversarial content incl. one that embeds '
+         'the tail of the boundary behind its last "=") x 2 thresholds/framings (rotated), enumerated completely.')
 NONTRIVIAL_RULE = 'distinct (fields, boundary, threshold, framing, closing CRLF); non-trivial = at least one part'
 
 DEFAULT_MEM = 100 * 1024
@@ -174,9 +184,57 @@ HDR_PARTS = [
 ]
 
 
+# (6) boundary strings containing '=' / the text 'boundary=' and other parameters around the boundary parameter
+EQ_BOUNDARIES = ['boundary', 'my-boundary=', '==frontier==', 'form_boundary=42', 'boundary=boundary=x', 'xboundary=boundary=-', 'a=b']
+CTYPE_TEMPLATES = ['multipart/form-data; boundary={b}', 'multipart/form-data; boundary={b}; charset=utf-8',
+                   'multipart/form-data; charset=utf-8; boundary={b}']
+
+
+def _eq_field_lists(bd):
+    tail = bd.rsplit('=', 1)[-1]         # what is left of the boundary behind its last '='
+    d = ('\r\n--' + tail).encode()
+    yield []
+    for f in (('text', 'a', 'v'), ('text', 'a=b', ''), ('text', '\u00e9', '\u00fc\u20ac'), ('text', 'boundary=', 'boundary=' + tail),
+              ('file', 'f', 'n.txt', 'text/plain', b'data'), ('file', 'f', 'boundary=q', None, d + b'\r\n'),
+              ('file', 'a b', '\u00e9.bin', 'a/b; p=q', b'\r\n--\r\n\x00\xff--'), ('file', 'f', 'n', None, b''),
+              ('file', 'f', 'n', None, d + b'--\r\n' + d)):
+        yield [f]
+    yield [SEQ_PARTS[0], SEQ_PARTS[1]]
+    yield [SEQ_PARTS[0], SEQ_PARTS[5], SEQ_PARTS[1]]
+    yield [SEQ_PARTS[5], SEQ_PARTS[6]]
+    yield [SEQ_PARTS[3], SEQ_PARTS[7], SEQ_PARTS[2]]
+    yield [('text', 'title', 'hello'), ('file', 'doc', 'a=c d.bin', 'application/octet-stream', b'\r\n--\r\n-- part\r\n\x00\xff--'),
+           ('text', 'title', 'zw\u00f6lf'), ('text', 'empty', ''), ('file', 'doc', 'second.txt', 'text/plain', b'line1\r\nline2\r\n')]
+    yield [('file', 'f', 'n', None, d), ('text', 't', '--' + tail), ('file', 'f', 'm', None, d + b'--')]
+    yield [HDR_PARTS[4], HDR_PARTS[5], HDR_PARTS[8]]
+    yield [('text', 'a', '1')] * 3
+
+
+def _gen_boundary_param(tier):
+    nf = len(FRAMINGS)
+    i = 0
+    for bd in EQ_BOUNDARIES + BOUNDARIES:
+        for tmpl in CTYPE_TEMPLATES:
+            if bd in BOUNDARIES and tmpl == CTYPE_TEMPLATES[0]:
+                continue        # parts (0)-(5)
+            for fields in _eq_field_lists(bd):
+                try:
+                    _encode(fields, bd)
+                except ValueError:
+                    continue
+                mems = _mems(fields)
+                i += 1
+                for k in range(2 if tier == 'quick' else 4):
+                    c = _case(fields, bd, mems[(i + k) % 4], FRAMINGS[(i * 3 + k * 5) % nf], (i + k) % 4 != 0,
+                              prelude=False)
+                    c['ctype'] = tmpl
+                    yield c
+
+
 def gen_cases(tier, seed):
     yield from _gen_main(tier, seed)
     yield from _gen_headers(tier)
+    yield from _gen_boundary_param(tier)
 
 
 def _gen_headers(tier):
@@ -512,6 +570,9 @@ def run_case(case):
     wire = build_wire(case, body)
     stream = FragStream(wire, case['script'], case['tail'] or None)
     ct = ms.content_type_header(boundary)
+    if case.get('ctype'):
+        # part (6): the same header with another parameter behind / before the boundary parameter (spelled by the case)
+        ct = case['ctype'].replace('{b}', boundary)
     if case['framing'] == 'ch':
         env = make_environ('/up', 'POST', stream=stream, content_type=ct, chunked=True)
     else:
